@@ -32,32 +32,15 @@ ASSUMPTIONS = [
 
 KINDS = ["truncate", "tok_delete", "tok_dup", "tok_replace", "char_flip", "insert", "strip_context", "bad_flag"]
 
-# step budget: A*len + B*quad + C  (quad = sum over closes of segments since the last move)
+# step budget, linear in the input: A*len + C. (Until repo fix "close lookup" every close walked back to its move,
+# and the budget carried a quadratic allowance for that; with the fix the parser is linear and so is the budget.)
 STEP_A = 700
-STEP_B = 200
 STEP_C = 5000
 FOLLOW_STEP_BUDGET = 3_000_000
 
-_TOK = re.compile(r"[Mm]|[Zz]|[-+]?(?:[0-9]*\.[0-9]+|[0-9]+)")
-
-
-def quad_term(s):
-    since = 0
-    quad = 0
-    for m in _TOK.finditer(s):
-        t = m.group()
-        if t in "Mm":
-            since = 1
-        elif t in "Zz":
-            since += 1
-            quad += since
-        else:
-            since += 1
-    return quad
-
 
 def step_budget(s):
-    return STEP_A * len(s) + STEP_B * quad_term(s) + STEP_C
+    return STEP_A * len(s) + STEP_C
 
 
 # --------------------------------------------------------------------------
@@ -168,6 +151,10 @@ def _generate(seed, index, tier):
 
         reps = int(math.exp(ch.uniform(math.log(20), math.log(reps_max))))
         s = (gp.render(block, ch.int(0, 63)) + " ") * reps
+        if ch.coin(0.4):
+            # one move for the whole input: every repetition draws on from the current point and closes to that move
+            body = [c for c in block[1:] if c["c"] not in "Mm"] + [{"c": ch.choice("zZ"), "g": [], "zc": 0}]
+            s = gp.render(block[:1], 0) + " " + (gp.render(body, ch.int(0, 63)) + " ") * reps
         case["stratum"] = "long"
         case["orig"] = None
         case["long"] = True
@@ -320,7 +307,7 @@ def execute(case, se, out, trace):
             return
         npre = len(p)
         out.count("fault:continuation-of-existing-path")
-    budget = step_budget(s) + (STEP_B * quad_term(pre + " " + s) if pre else 0)
+    budget = step_budget(s)
     exc = None
     core.STEPS.start(budget)
     try:
@@ -333,7 +320,7 @@ def execute(case, se, out, trace):
     out.steps += steps
     out.count("events", 1)
     if core.STEPS.exceeded or steps > budget:
-        raise V("steps", ["parse", "len=%d" % min(len(s), 9999)], "parse of %d chars did not finish within %d line steps (budget = %d*len + %d*quad + %d)" % (len(s), budget, STEP_A, STEP_B, STEP_C))
+        raise V("steps", ["parse", "len=%d" % min(len(s), 9999)], "parse of %d chars did not finish within %d line steps (budget = %d*len + %d)" % (len(s), budget, STEP_A, STEP_C))
     outcome = "returned" if exc is None else type(exc).__name__
     cmd = _cmd_at_error(exc) if exc is not None else "-"
     pos = _lexer_pos(exc) if exc is not None else None
